@@ -91,6 +91,9 @@ func Restart(cfg WorldCfg, store Store) (*World, bool, error) {
 		return nil, false, err
 	}
 	cfg.Lazy = false
+	// by the time of a restart the access hash of a stored channel is known (it is persistent too),
+	// so Manager.loadChannels tracks the channel from its stored position
+	cfg.LateHash = nil
 	w, err := NewWorld(cfg, store, len(log))
 	if err != nil {
 		return nil, false, err
